@@ -23,7 +23,7 @@ PC_SOURCE = '''from .base import Backend
 
 
 class ProudCloud(Backend, short_name='PROUDCLOUD'):
-    def __init__(self, connection_string, *, account_id, secret, port=9_876, legacy=False, mode='fast'):
+    def __init__(self, connection_string, *, account_id, secret, port=9_876, legacy=False, mode='fast', timeout=2.5, retries=3):
         raise RuntimeError('the harness records constructor calls instead')
 
     exists = upload = upload_stream = download = download_stream = list_files = delete = None
@@ -44,7 +44,7 @@ class ProudCloudLegacy(ProudCloud):
 Client = ProudCloudLegacy
 '''
 PCL_PARAMS = [('account_id', None), ('secret', None), ('port', 8765), ('region', 'eu-1')]
-PC_PARAMS = [('account_id', None), ('secret', None), ('port', 9876), ('legacy', False), ('mode', 'fast')]
+PC_PARAMS = [('account_id', None), ('secret', None), ('port', 9876), ('legacy', False), ('mode', 'fast'), ('timeout', 2.5), ('retries', 3)]
 
 COMMANDS = [('init', []), ('add-key', []), ('list-snapshots', []), ('ls', []), ('list-files', []), ('lf', []),
             ('snapshot', ['/some/path']), ('restore', []), ('delete', ['snapshot-name']), ('clean', []),
@@ -143,6 +143,8 @@ def coq_value(v):
         return f'(VBool {"true" if v else "false"})'
     if isinstance(v, int):
         return f'(VInt ({v}))'
+    if isinstance(v, float) and v * 2 == int(v * 2):
+        return f'(VHalf ({int(v * 2)}))'
     if isinstance(v, str):
         return f'(VStr {core.coq_string(v)})'
     raise TypeError(v)
@@ -196,6 +198,8 @@ def raw_value(row, src, backend, files, variant):
 
 
 def toml_value(v):
+    if isinstance(v, list):
+        return '[' + ', '.join(toml_value(x) for x in v) + ']'
     if isinstance(v, bool):
         return 'true' if v else 'false'
     if isinstance(v, int):
@@ -471,6 +475,34 @@ def spelling_cases(world, ctx, backends, per_option):
     return cases
 
 
+def collision_cases(world):
+    """Several typed options in ONE configuration whose values compare equal across types (true / 1 / 1.0 / "1", false / 0 /
+    0.0 / "0"): every option must get the value AND the type it gets when it is the only option set.  Plus a TOML array."""
+    rows = {r['name']: r for r in world.rows('pc')}
+    opts = ['account-id', 'secret', 'port', 'legacy', 'timeout', 'retries']
+    T, F = [True, 1, 1.0, '1'], [False, 0, 0.0, '0']
+    combos = []
+    for k in range(4):
+        combos.append([(o, 'dflt', T[(i + k) % 4]) for i, o in enumerate(opts)])
+        combos.append([(o, 'prof' if i % 2 else 'dflt', F[(i + k) % 4]) for i, o in enumerate(opts)])
+    combos.append([(o, 'prof', (T + F)[(i * 3) % 8]) for i, o in enumerate(opts)])
+    combos.append([('legacy', 'dflt', True), ('timeout', 'dflt', 1.0)])
+    combos.append([('legacy', 'prof', False), ('retries', 'dflt', 0), ('timeout', 'prof', 0.0)])
+    combos.append([('port', 'dflt', 1), ('legacy', 'env', 'true'), ('timeout', 'prof', 1.0), ('retries', 'cli', '1'), ('secret', 'env', '1.0')])
+    cases, singles = [], set()
+    for k, combo in enumerate(combos):
+        cases.append(world.make_case('pc', COMMANDS[k % len(COMMANDS)][0], [(rows[o], s, v) for o, s, v in combo], kind='collision',
+                                     profile_mode=2, label=f'collision{k}'))
+        singles |= {(o, s if s in ('cli', 'env') else 'dflt', json.dumps(v)) for o, s, v in combo}
+    for k, (o, s, jv) in enumerate(sorted(singles)):
+        cases.append(world.make_case('pc', COMMANDS[k % len(COMMANDS)][0], [(rows[o], s, json.loads(jv))], kind='collision-single',
+                                     profile_mode=1, label=f'{o}|{s in ("cli", "env")}|{jv}'))
+    c = world.make_case('pc', 'clean', [(rows['mode'], 'dflt', ['a', 'b']), (rows['legacy'], 'dflt', True)], kind='typed-list', profile_mode=1)
+    c['nomodel'] = True
+    cases.append(c)
+    return cases
+
+
 def secret_file_cases(world):
     """File-valued options beyond the tables: -N/--new-password-file of add-key; the default-location configuration file
     (HOME) against the same file named with --config, with existing and MISSING secret files."""
@@ -621,6 +653,8 @@ Definition go (params : list (string * option value)) (s : sources) := run_main 
 
 
 def coq_sources(world, case):
+    if case.get('nomodel'):          # not compared with the model (values it has no term for): an empty placeholder
+        return '{| s_cli := []; s_env := []; s_prof := []; s_dflt := [] |}'
     cli, env, prof, dflt = [], [], [], []
     for name, src, v in case['given'] + case.get('extra', []):
         if src == 'cli':
@@ -854,6 +888,29 @@ def check(world, cases, rep: Report, with_model=True):
                                            str({k: a.get(rows_by_backend['pc'][n]['dest']) for n, _, _ in cd['given'] for k in [n]})[:300],
                                    'signature': {'kind': 'default_location_config', 'missing_file': bool(cn.get('missing'))},
                                    'replay': [label(cn), label(cd)]})
+    # (9) options do not influence each other: in a configuration with several typed options every option has the value and
+    #     the type it has when it is the only one set
+    alone = {c['label']: o for c, o in zip(cases, results) if c['kind'] == 'collision-single'}
+    for case, obs in zip(cases, results):
+        if case['kind'] == 'typed-list':
+            want = ['list', [['str', 'a'], ['str', 'b']]]
+            if obs['status'] != 'ok' or obs['args'].get('mode') != want:
+                rep.violations.append({'what': f'a TOML array for a backend option: {obs["status"]} {obs.get("error", "")} {obs.get("args", {}).get("mode")} instead of {want}',
+                                       'signature': {'kind': 'typed_values_interfere', 'what': 'array'}, 'replay': label(case)})
+        if case['kind'] != 'collision':
+            continue
+        if obs['status'] != 'ok':
+            rep.violations.append({'what': f'configuration {case["given"]}: the program stops ({obs.get("error") or obs.get("code")}: {obs.get("message", "")[:80]})',
+                                   'signature': {'kind': 'typed_values_interfere', 'what': 'stops'}, 'replay': label(case)})
+            continue
+        for name, src, v in case['given']:
+            ref = alone.get(f'{name}|{src in ("cli", "env")}|{json.dumps(v)}')
+            dest = rows_by_backend['pc'][name]['dest']
+            if ref is not None and ref['status'] == 'ok' and obs['args'].get(dest) != ref['args'].get(dest):
+                rep.violations.append({'what': f'option {name} = {v!r} ({src}) becomes {obs["args"].get(dest)} next to {[(n, x) for n, _, x in case["given"] if n != name]}, '
+                                               f'but {ref["args"].get(dest)} when it is the only option set',
+                                       'signature': {'kind': 'typed_values_interfere', 'what': 'value'}, 'replay': label(case)})
+                break
     # (4) the backend that was loaded and constructed is the one the effective repository names
     for case, obs in zip(cases, results):
         if obs['status'] == 'ok':
@@ -919,7 +976,7 @@ def run(ctx) -> Report:
     cases += agreement_cases(world, ctx, ['pc', 's3c', 's3', 'pcl'])
     cases += invariance_cases(world, backends)
     cases += spelling_cases(world, ctx, ['pc', 's3', 'local'], None if thorough else 4)
-    cases += secret_file_cases(world)
+    cases += secret_file_cases(world) + collision_cases(world)
     cases += exclusive_cases(world) + invalid_cases(world) + double_coercion_cases(world)
     check(world, cases, rep)
     rep.extra['processes'] = len(cases)
@@ -933,7 +990,7 @@ def search(ctx, broken) -> Report:
     backends = ['pc', 's3c', 's3', 'pcl', 'local']
     cases = precedence_cases(world, ctx, backends, all_commands=True)
     cases += agreement_cases(world, ctx, ['pc', 's3c', 's3', 'pcl']) + invariance_cases(world, backends) + exclusive_cases(world) + invalid_cases(world)
-    cases += spelling_cases(world, ctx, ['pc', 's3', 'local'], None) + secret_file_cases(world)
+    cases += spelling_cases(world, ctx, ['pc', 's3', 'local'], None) + secret_file_cases(world) + collision_cases(world)
     check(world, cases, rep, with_model=False)
     return rep
 
